@@ -35,7 +35,6 @@ pub open spec fn op_id5(target: Address, function: Symbol, args: Vec<Val>, prede
 pub open spec fn op_id(op: Operation) -> BytesN<32> { op_id5(op.target, op.function, op.args, op.predecessor, op.salt) }
 
 // ---- world transformers ----
-pub open spec fn w_event(w: World, ev: SV) -> World { World { events: w.events.push(ev), ..w } }
 pub open spec fn w_call(w: World, callee: Address, func: int, args: Seq<SV>, ret: SV, ext: int) -> World {
     World { calls: w.calls.push(Call { callee: callee, func: func, args: args, ret: ret, ok: true }), ext: ext, ..w }
 }
